@@ -277,8 +277,37 @@ func init() {
 	register(sp+"EqualFold", func(fr *frame, a []value) value { return strings.EqualFold(cstr(a[0]), cstr(a[1])) })
 	register(sp+"Fields", func(fr *frame, a []value) value {
 		var out []value
-		for _, f := range strings.Fields(cstr(a[0])) {
-			out = append(out, f)
+		s := normStr(a[0])
+		if c, ok := s.(string); ok {
+			for _, f := range strings.Fields(c) {
+				out = append(out, f)
+			}
+			return out
+		}
+		// per-character string: fork on "is this character white space" (ASCII)
+		if sa, ok := s.(symStr); ok {
+			s = fr.strAtoB(sa)
+		}
+		cs, _ := toB(s)
+		isSpace := func(c value) bool {
+			if u, ok := c.(uint8); ok {
+				return u == ' ' || (u >= 9 && u <= 13)
+			}
+			return fr.truth(mkBool(isSpaceTerm(charTerm(c))))
+		}
+		start := -1
+		for i, c := range cs {
+			if isSpace(c) {
+				if start >= 0 {
+					out = append(out, normStr(symStrB{cs[start:i]}))
+					start = -1
+				}
+			} else if start < 0 {
+				start = i
+			}
+		}
+		if start >= 0 {
+			out = append(out, normStr(symStrB{cs[start:]}))
 		}
 		return out
 	})
@@ -1049,4 +1078,82 @@ func init() {
 		fr.run().flags["assumeClean"] = 1
 		return nil
 	})
+}
+
+// ---------------------------------------------------------------------------------
+// byte-for-byte replacement on per-character symbolic strings without forking
+
+// mapCharsB applies a byte->byte table to a rep-B string: every symbolic character becomes an
+// ite chain over the table's non-identity entries.
+func mapCharsB(s symStrB, table func(b uint8) uint8) value {
+	var exc []uint8
+	for k := 0; k < 256; k++ {
+		if table(uint8(k)) != uint8(k) {
+			exc = append(exc, uint8(k))
+		}
+	}
+	out := make([]value, len(s.cs))
+	for i, c := range s.cs {
+		switch c := c.(type) {
+		case uint8:
+			out[i] = table(c)
+		case symInt:
+			t := c.t
+			for _, k := range exc {
+				t = smt.Ite(smt.Eq(c.t, smt.IntC(int64(k))), smt.IntC(int64(table(k))), t)
+			}
+			out[i] = symInt{t, types.Uint8}
+		default:
+			panic(unsupported(fmt.Sprintf("mapCharsB: character %T", c)))
+		}
+	}
+	return normStr(symStrB{out})
+}
+
+func init() {
+	// strings.ReplaceAll with single-byte old/new on a per-character string
+	prev := interceptTable["strings.ReplaceAll"]
+	interceptTable["strings.ReplaceAll"] = func(fr *frame, a []value) value {
+		if sb, ok := normStr(a[0]).(symStrB); ok {
+			from, ok1 := normStr(a[1]).(string)
+			to, ok2 := normStr(a[2]).(string)
+			if ok1 && ok2 && len(from) == 1 && len(to) == 1 {
+				return mapCharsB(sb, func(b uint8) uint8 {
+					if b == from[0] {
+						return to[0]
+					}
+					return b
+				})
+			}
+		}
+		return prev(fr, a)
+	}
+	// strings.NewReplacer with single-byte pairs ends up in byteReplacer.Replace, whose table
+	// lookup r[b] would otherwise enumerate every value of every symbolic character
+	register("(*strings.byteReplacer).Replace", func(fr *frame, a []value) value {
+		sb, ok := normStr(a[1]).(symStrB)
+		p, ok2 := a[0].(*value)
+		if !ok || !ok2 || p == nil {
+			return fr.i.runBody(fr, fr.i.stringsByteReplacerReplace(), a)
+		}
+		arr, ok := (*p).(array)
+		if !ok || len(arr) != 256 {
+			return fr.i.runBody(fr, fr.i.stringsByteReplacerReplace(), a)
+		}
+		tab := make([]uint8, 256)
+		for k := range arr {
+			u, ok := arr[k].(uint8)
+			if !ok {
+				return fr.i.runBody(fr, fr.i.stringsByteReplacerReplace(), a)
+			}
+			tab[k] = u
+		}
+		return mapCharsB(sb, func(b uint8) uint8 { return tab[b] })
+	})
+}
+
+func (i *interpreter) stringsByteReplacerReplace() *ssa.Function {
+	pkg := i.prog.ImportedPackage("strings")
+	t := pkg.Type("byteReplacer")
+	return i.prog.LookupMethod(types.NewPointer(t.Type()), pkg.Pkg, "Replace")
 }
